@@ -148,8 +148,9 @@ def load_known():
 
 def match_known(known, pid, sig):
     for k in known:
+        pats = k['signature'] if isinstance(k['signature'], list) else [k['signature']]
         if k.get('property') == pid and k.get('status') == 'open' and \
-                fnmatch.fnmatchcase(sig, k['signature']):
+                any(fnmatch.fnmatchcase(sig, p) for p in pats):
             return k
     return None
 
